@@ -7,7 +7,9 @@ HREL = "hippolyzer/lib/proxy/http_event_manager.py"
 KEY = "hippolyzer.lib.proxy.http_event_manager:MITMProxyEventManager._handle_request"
 
 
-def register_p3(reg, prop, instances=None, only_handle_request=False):
+def register_p3(reg, prop, instances=None, only_handle_request=False, only_clauses=None):
+    """only_clauses: substrings selecting which of the postconditions this property's instance carries (the replay-cache clauses
+    are C17's and speak about CapType through C17's own declarations)"""
     from hippolyzer.lib.proxy.caps import CapType
     o = "Opaque:Any"
     if "MITMProxyEventManager" not in reg.classes:
@@ -15,7 +17,7 @@ def register_p3(reg, prop, instances=None, only_handle_request=False):
                                                                 "flow_context": o, "from_proxy_queue": o, "to_proxy_queue": o}))
     reg.classes["MITMProxyEventManager"].fields.setdefault("_asset_server_proxied", "Bool")
     ext = {
-        "self.session_manager.resolve_cap": {"returns": "Opt[Opaque:CapData]", "doc": "capability attribution of the URL (C16)"},
+        "self.session_manager.resolve_cap": {"returns": "Opt[Opaque:CapData]", "record_as": "resolve_cap", "doc": "capability attribution of the URL (C16)"},
         "self.session_manager.asset_repo.try_serve_asset": {"returns": "Bool", "may_raise": "AnyException", "doc": "local asset repo"},
         "AddonManager.handle_http_request": {"record_as": "addon_hook", "may_raise": "AnyException", "doc": "addon hook"},
         "cap_data.cap_name.endswith": {"returns": "Bool", "doc": "str.endswith"},
@@ -52,6 +54,8 @@ def register_p3(reg, prop, instances=None, only_handle_request=False):
                 # (wrapper capabilities), what is taken apart is the URL as it is after the addon hook ran, not an earlier reading
                 "implies(ncalls('urlsplit') >= 2, called_with('read_url', lambda result, hooks: hooks == 1 and "
                 "called_with('urlsplit', lambda arg0: arg0 == result)))",
+                # (C16) the request is attributed by its request URL (not by anything else the client supplies, such as a Host header)
+                "ncalls('resolve_cap') == 1 and called_with('resolve_cap', lambda arg0: called_with('read_url', lambda result: result == arg0))",
                 "ncalls('cache_lookup') <= 1",
                 # the replay: looked up under the ack the request carries; a hit is served from the cache, with that very payload
                 "implies(ncalls('cache_lookup') == 1, called_with('parse', lambda result: called_with('cache_lookup', lambda arg0: arg0 == result['ack'])))",
@@ -63,6 +67,8 @@ def register_p3(reg, prop, instances=None, only_handle_request=False):
                 "not (truthy(val(cap_data).type == CapType.PROXY_ONLY)), ncalls('make_response') == 0)",
             ],
             frame=None))
+        if only_clauses:
+            reg.fns[KEY + nm].ensures = [e for e in reg.fns[KEY + nm].ensures if any(t in e for t in only_clauses)]
         alias_loops_by_order(reg.fns[KEY + nm])
     if only_handle_request:
         return
@@ -83,7 +89,7 @@ def register_p3(reg, prop, instances=None, only_handle_request=False):
         returns="Opaque:Any",
         externals={
             "any": {"returns": "Bool", "doc": "any((circuit_addr, seed_url))"},
-            "region.cap_urls.get": {"returns": "Opt[Str]", "doc": "the region's Seed URL, if it has one"},
+            "region.cap_urls.get": {"returns": "Opt[Str]", "record_as": "seed_get", "record_result": True, "doc": "the region's Seed URL, if it has one"},
             "region.update_caps": {"record_as": "update_caps", "doc": "Seed URL recorded on the existing region"},
             "self.REGION_CLS": {"returns": "Opaque:Region", "record_as": "create", "record_result": True, "doc": "new region object"},
             "self.regions.append": {"record_as": "append", "doc": "session's region list"},
@@ -96,6 +102,10 @@ def register_p3(reg, prop, instances=None, only_handle_request=False):
         ensures=[
             # found: that region is returned and nothing is created; not found: exactly one region is created, appended and returned
             "implies(L0_left_early == 1, ncalls('create') == 0 and ncalls('append') == 0 and RESULT == region)",
+            # ... and it is found under that address or, failing that, under that seed URL - by nothing else (a region that merely shares
+            # some other attribute with the announcement is not the region announced: its address would stay unregistered)
+            "implies(L0_left_early == 1, (not is_none(circuit_addr) and region.circuit_addr == val(circuit_addr)) or "
+            "called_with('seed_get', lambda result: not is_none(result) and not is_none(seed_url) and val(result) == val(seed_url)))",
             "implies(L0_left_early == 0, ncalls('create') == 1 and ncalls('append') == 1 and "
             "called_with('create', lambda arg0, arg1, result: arg0 == val(circuit_addr) and result == RESULT and called_with('append', lambda arg0: arg0 == result)))",
         ],
